@@ -42,9 +42,11 @@ TrHeader == /\ Ev("Header")
             /\ open' = Empty
 
 \* Lookup, hit: a closed entry with exactly this key, and exactly the findings stored in it are replayed
+\* ("closing": the writer had logged AiClose - it was about to write the end tag - when the whole process was killed by a
+\* fault point of ANOTHER thread before it logged AiClosed; the file on disk may or may not be complete, both are behaviours)
 TrHit == /\ Ev("AiHit")
          /\ E.afile \in DOMAIN ent
-         /\ ent[E.afile].st = "closed" /\ ent[E.afile].hash = E.hash /\ ent[E.afile].n = E.n
+         /\ ent[E.afile].st \in {"closed", "closing"} /\ ent[E.afile].hash = E.hash /\ ent[E.afile].n = E.n
          /\ UNCHANGED <<ent, open>>
 
 \* Lookup, miss: only when the entry is absent, not closed, or stored under another key; the entry is rewritten
@@ -56,6 +58,12 @@ TrOpen == /\ Ev("AiOpen") /\ ~Died
 TrWrite == /\ Ev("AiWrite")
            /\ W \in DOMAIN open /\ ent[open[W]].st = "open"
            /\ ent' = IF E.kind = "finding" THEN [ent EXCEPT ![open[W]].n = @ + 1] ELSE ent
+           /\ UNCHANGED open
+
+TrClose == /\ Ev("AiClose") /\ ~Died
+           /\ IF W \in DOMAIN open /\ ent[open[W]].st = "open"
+              THEN ent' = [ent EXCEPT ![open[W]].st = "closing"]
+              ELSE UNCHANGED ent
            /\ UNCHANGED open
 
 TrClosed == /\ Ev("AiClosed")
@@ -74,13 +82,13 @@ TrReopen == /\ Ev("AiReopen") /\ ~Died
 \* the process was killed: whatever was being written stays open (no end tag)
 TrKilled == /\ Ev("Killed") /\ open' = Empty /\ UNCHANGED ent
 
-SkipDied == /\ l <= Len(Log) /\ E.e \in {"AiOpen", "AiReopen"} /\ Died
+SkipDied == /\ l <= Len(Log) /\ E.e \in {"AiOpen", "AiReopen", "AiClose"} /\ Died
             /\ l' = l + 1 /\ UNCHANGED <<ent, open>>
 
-Skip == /\ l <= Len(Log) /\ E.e \in {"AiOpened", "AiClose", "FilesTxt", "CheckBegin", "CheckEnd", "Exit", "WpDirBegin", "WpDirEnd", "UnmatchedDone", "CacheHit", "CacheMiss"}
+Skip == /\ l <= Len(Log) /\ E.e \in {"AiOpened", "FilesTxt", "CheckBegin", "CheckEnd", "Exit", "WpDirBegin", "WpDirEnd", "UnmatchedDone", "CacheHit", "CacheMiss"}
         /\ l' = l + 1 /\ UNCHANGED <<ent, open>>
 
-Next == TrHeader \/ TrHit \/ TrOpen \/ TrWrite \/ TrClosed \/ TrReopen \/ TrKilled \/ Skip \/ SkipDied
+Next == TrHeader \/ TrHit \/ TrOpen \/ TrWrite \/ TrClose \/ TrClosed \/ TrReopen \/ TrKilled \/ Skip \/ SkipDied
 Spec == Init /\ [][Next]_<<l, ent, open>>
 
 Accepted ==
